@@ -50,7 +50,11 @@ def make_config(rng, anchored):
     }
     fam["gitignore"] = rng.random() < 0.6
     t = ['version = "2"', "[scanner]", "gitignore = %s" % ("true" if fam["gitignore"] else "false")]
-    t.append("exclude = [%s]" % ", ".join(json.dumps(x) for x in ([".git/**"] + ([pat("vendor/**")] if fam["scanner_exclude"] else []))))
+    sc_ex = [".git/**"]
+    if fam["scanner_exclude"]:
+        # a subtree pattern, or a bare multi-component directory (pruned as a directory by the structure-aware walker)
+        sc_ex.append(rng.choice([pat("vendor/**"), pat("vendor/**"), "src/gen" if anchored else "**/src/gen"]))
+    t.append("exclude = [%s]" % ", ".join(json.dumps(x) for x in sc_ex))
     t += ["[content]", 'extensions = ["rs"]', "max_lines = %d" % lim]
     if fam["content_exclude"]:
         t.append("exclude = [%s]" % json.dumps(pat("src/gen/**")))
@@ -185,6 +189,29 @@ def run(ctx):
                     if d or rc != ref[0]:
                         fails.append(("baseline written under %s: run under %s differs from run under %s" % (wsp, sp, ref[2]), cfg, {"exit": (ref[0], rc), "diff": d[:6]}))
                 # with the baseline of the same state nothing recorded may still be failing
+            # the same baseline with its keys re-spelled (older releases, hand edits, a run from another working
+            # directory wrote ./x, absolute and doubled-separator keys): still honoured under every spelling
+            try:
+                bj = json.load(open(bl))
+                def respell(k):
+                    r = ctx.rng.random()
+                    if k in (".", ""):
+                        return k
+                    return k if r < 0.2 else ("./" + k if r < 0.45 else (sb.proj + "/" + k if r < 0.75 else (k.replace("/", "//", 1) if r < 0.9 else k.replace("/", "\\"))))
+                if bj.get("files"):
+                    bj["files"] = {respell(k): v for k, v in bj["files"].items()}
+                    bl2 = os.path.join(sb.base, "baseline2.json")
+                    json.dump(bj, open(bl2, "w"))
+                    for sp in ctx.rng.sample(SPELLINGS + SUB_SPELLINGS, 3):
+                        rc1, res1 = run_check(sb, exe, sp, extra=["--baseline", bl])
+                        rc2, res2 = run_check(sb, exe, sp, extra=["--baseline", bl2])
+                        evals += 2
+                        d = compare(res1, res2)
+                        if d or rc1 != rc2:
+                            fails.append(("baseline with re-spelled keys %s is not honoured under %s as the tool-written one is" % (sorted(bj["files"])[:3], sp), cfg, {"exit": (rc1, rc2), "diff": d[:6]}))
+                    hist["respelled_baseline"] = hist.get("respelled_baseline", 0) + 1
+            except (OSError, ValueError):
+                pass
             if k < 2:
                 ctx.sample({"config": cfg, "files": {f: c.count("\n") for f, c in files.items()}, "noarg_results": {str(a): b for a, b in list(base.items())[:8]}})
     ctx.cov["evaluations"] = evals
